@@ -216,6 +216,11 @@ class SimulationAlgorithm(BaseSimulationAlgorithm):
             raise LeaspyAlgoInputError(
                 "The model type should be 'logistic' (LogisticModel) for simulation."
             )
+        if len(self.features) != model.dimension:
+            raise LeaspyAlgoInputError(
+                f"The number of features ({len(self.features)}) should be the "
+                f"dimension of the model ({model.dimension})."
+            )
 
     def _validate_algo_parameters(self):
         """Validate the algorithm parameters.
